@@ -127,7 +127,7 @@ def extract(repo, out_dir, target_dir, config="dev", log=None):
     return time.time() - t0
 
 
-KEEP_SETS = 200     # ~15 MB each; a full self-test run touches ~150 trees
+KEEP_SETS = 400     # ~15 MB each; a full self-test run touches ~260 trees
 
 
 def _touch(d):
